@@ -431,7 +431,7 @@ pub fn run(_scenario: u32, choices: &[u8], _strict: bool) -> Outcome {
       return o;
     }
   }
-  let donor = genuine;
+  let mut donor = genuine;
 
   // ---------------------------------------------------------------- (1b) calibration of the hand-built reply (after the genuine run: if that fails, it is the finding)
   // built with a CA-issued identity it must be accepted, otherwise rejecting the foreign one proves nothing
@@ -716,6 +716,50 @@ pub fn run(_scenario: u32, choices: &[u8], _strict: bool) -> Outcome {
         format!("{}: the shared secret of the completed handshake is {} afterwards", o.sample, if after.is_none() { "no longer available" } else { "different" }),
       );
       return o;
+    }
+  }
+  // ---------------------------------------------------------------- (3) an impostor AFTER a genuine peer
+  // The plugin instance of identity 1 in the donor run has authenticated the genuine identity 2.
+  // Now a new remote participant turns up at that same instance with a certificate that carries
+  // identity 2's subject name but was issued by a foreign CA (it holds the matching key). What the
+  // instance has seen before must not make it any more trusting. (drawn last)
+  if c.chance(110) {
+    let seed_of_id1 = if swap_roles { seeds.1 } else { seeds.0 };
+    let victim_is_initiator = donor.initiator.guid == party(&f.id1, seed_of_id1).guid;
+    let victim: &mut Party = if victim_is_initiator { &mut donor.initiator } else { &mut donor.replier };
+    let mut imp = party(&f.foreign, (201 + seeds.0 % 50));
+    let as_requester = c.bool();
+    o.label(if as_requester { "impostor-after-genuine:request" } else { "impostor-after-genuine:reply" });
+    match victim.auth.validate_remote_identity(None, victim.handle, imp.token.clone(), imp.guid.prefix) {
+      Err(_) => o.label("impostor-after-genuine:refused-at-validate_remote_identity"),
+      Ok((_, h_imp, _)) => {
+        if as_requester {
+          if let Ok((_, h_v, _)) = imp.auth.validate_remote_identity(None, imp.handle, victim.token.clone(), victim.guid.prefix) {
+            if let Ok((_, _, request)) = imp.auth.begin_handshake_request(imp.handle, h_v, imp.pdata.clone()) {
+              if victim.auth.begin_handshake_reply(request, h_imp, victim.handle, victim.pdata.clone()).is_ok() {
+                o.violate(
+                  "c19.forgery-accepted",
+                  "request:foreign-ca-certificate-after-a-genuine-peer-with-that-subject",
+                  format!("seeds={seeds:?} swap={swap_roles}: after authenticating the genuine identity 2, the same plugin instance accepted the handshake request of a NEW participant whose certificate has identity 2's subject name but was issued by a foreign CA"),
+                );
+                return o;
+              }
+            }
+          }
+        } else if let Ok((_, hs, request)) = victim.auth.begin_handshake_request(victim.handle, h_imp, victim.pdata.clone()) {
+          if let Some(reply) = attacker_reply(&request, &f.foreign, (201 + seeds.0 % 50)) {
+            let res = victim.auth.process_handshake(reply, hs);
+            if accepted(&res) || victim.auth.get_shared_secret(h_imp).is_ok() {
+              o.violate(
+                "c19.forgery-accepted",
+                "reply:foreign-ca-certificate-after-a-genuine-peer-with-that-subject",
+                format!("seeds={seeds:?} swap={swap_roles}: after authenticating the genuine identity 2, the same plugin instance completed a handshake on the reply of a NEW participant whose certificate has identity 2's subject name but was issued by a foreign CA"),
+              );
+              return o;
+            }
+          }
+        }
+      }
     }
   }
   o.label(match stage {
